@@ -13,7 +13,7 @@ MANIFEST = {
 
 
 def jobs(tier):
-    J = [C11.bjob("harness_sign", 1, 3, 24), C11.bjob("harness_sign", 2, 3, 24), C11.bjob("harness_sign", 2, 3, 33)]
+    J = [C11.bjob("harness_sign", 1, 3, 24), C11.bjob("harness_sign", 2, 3, 24), C11.bjob("harness_sign", 2, 3, 33), C11.bjob("harness_sign", 2, 3, 0), C11.bjob("harness_sign", 1, 3, 0)]
     if tier == "thorough":
         J += [C11.bjob("harness_sign", 3, 3, 24, timeout=3000), C11.bjob("harness_sign", 3, 4, 128, timeout=3000)]
     return J
